@@ -197,6 +197,49 @@ def _sparse_years(draw: Any, cfg: gen.GenCfg) -> Dict[str, Any]:
 
 
 @st.composite
+def _new_year_offsets(draw: Any, cfg: gen.GenCfg) -> Dict[str, Any]:
+    """Records of exchanges in different time zones within hours of New Year: an entry dated 1 January of year Y (own offset
+    east of UTC) whose instant is *earlier* than that of an entry dated 31 December of Y-1 (own offset at or west of UTC), and
+    then often one more of each kind, so that along the time axis the own years read Y, Y-1, Y, (Y-1).  The year of an entry is
+    that of its own timestamp (R3 does not hold here by design; no date window is used with this flavour)."""
+    acc = (gen.EXCHANGE_NAMES[0], gen.HOLDER_NAMES[0])
+    other = (gen.EXCHANGE_NAMES[1 if cfg.max_exchanges > 1 else 0], gen.HOLDER_NAMES[0])
+    year = draw(st.integers(2017, 2022))
+    new_year = gen._year_start_us(year)  # 00:00 UTC, 1 January of `year`
+    rows: List[Dict[str, Any]] = []
+    n = 0
+
+    def price() -> str:
+        return gen.units_to_str(draw(st.integers(1, 900)) * gen.UNIT)
+
+    def add(kind: str, us: int, off: int) -> None:
+        nonlocal n
+        ts = model.fmt_ts(us, off)
+        if kind == "in":
+            rows.append({"table": "in", "row": 0, "ts": ts, "ex": acc[0], "ho": acc[1], "type": draw(st.sampled_from(["buy", "buy", "interest"])), "price": price(), "crypto_in": gen.units_to_str(draw(st.integers(1, 3000)) * (gen.UNIT // 1000)), "uid": f"ny{n}"})
+        elif kind == "out":
+            rows.append({"table": "out", "row": 0, "ts": ts, "ex": acc[0], "ho": acc[1], "type": draw(st.sampled_from(["sell", "sell", "gift"])), "price": price(), "out": gen.units_to_str(draw(st.integers(1, 900)) * (gen.UNIT // 1000)), "fee": "0", "uid": f"ny{n}"})
+        else:
+            sent = draw(st.integers(2, 900)) * (gen.UNIT // 1000)
+            rows.append({"table": "intra", "row": 0, "ts": ts, "from_ex": acc[0], "from_ho": acc[1], "to_ex": other[0], "to_ho": other[1], "price": price(), "sent": gen.units_to_str(sent), "received": gen.units_to_str(sent - gen.UNIT // 1000), "uid": f"ny{n}"})
+        n += 1
+
+    rows.append({"table": "in", "row": 0, "ts": model.fmt_ts(new_year - draw(st.integers(20, 500)) * gen.DAY_US, 0), "ex": acc[0], "ho": acc[1], "type": "buy", "price": price(), "crypto_in": "10", "uid": "ny_lot"})
+    east = [60, 5 * 60 + 30, 9 * 60, 12 * 60 + 45, 14 * 60]
+    west = [0, 0, -5 * 60, -8 * 60, -12 * 60]
+    # instants inside the last hour of 31 December UTC: dated 1 January with any eastern offset, 31 December with any western one
+    us = new_year - 3600 * gen.US + draw(st.integers(1, 600)) * gen.US
+    for k in range(draw(st.integers(2, 4))):
+        add(draw(st.sampled_from(["in", "out", "out", "intra"])), us, draw(st.sampled_from(east if k % 2 == 0 else west)))
+        us += draw(st.integers(1, 600)) * gen.US
+    if draw(st.booleans()):
+        add(draw(st.sampled_from(["in", "out"])), new_year + draw(st.integers(30, 700)) * gen.DAY_US, 0)
+    for i, row in enumerate(rows):
+        row["row"] = cfg.first_row + i
+    return {"asset": cfg.asset, "exchanges": sorted({acc[0], other[0]}, key=gen.EXCHANGE_NAMES.index), "holders": [acc[1]], "rows": rows}
+
+
+@st.composite
 def _same_second_trades(draw: Any, cfg: gen.GenCfg) -> Dict[str, Any]:
     """Millisecond-resolution trading: two or three earlier lots, then a disposal and a purchase (with a crypto fee, i.e. one the
     parser re-creates) inside the same wall-clock second, the purchase a few hundred milliseconds *after* the disposal and priced
@@ -332,7 +375,7 @@ def file_case(
         elif flavour == "disposal_years":
             overrides.update(ops=("out", "out", "out", "in"), tie_prob=0.05)
         cfg = gen.GenCfg(**{**hist.__dict__, **overrides})
-        special = {"dust_on_big_lot": _dust_on_big_lot, "tied_fills": _tied_fills, "sparse_years": _sparse_years, "same_second_trades": _same_second_trades}
+        special = {"dust_on_big_lot": _dust_on_big_lot, "tied_fills": _tied_fills, "sparse_years": _sparse_years, "new_year_offsets": _new_year_offsets, "same_second_trades": _same_second_trades}
         generated = draw(special[flavour](cfg)) if flavour in special else draw(gen.history(cfg))
         if flavour == "fully_sold":
             generated["rows"].extend(_liquidation_rows(draw, generated["rows"]))
